@@ -393,6 +393,18 @@ class ParseRtcm3(Contract):
                 elif out.cls in libs:
                     eng.oblige(f"{self.qualname}.exc.frame_fully_consumed_before_validation", s,
                                z3.And(pos == p0 + 4 + size, parsed), kind="exc", site=fi.lineno, observe=obs, note=f"raises {out.cls.__name__}")
+                    # ... and only for the reason parse() has: bad CRC while validating, or a payload that does not construct
+                    from contracts.message import has_header
+                    from contracts.message_glue import parses_ok
+                    rawv = SBytes([View(arr, p0 - 2, p0 + 4 + size)])
+                    pl = SBytes([View(arr, p0 + 1, p0 + 1 + size)])
+                    vbit = int_term(fld["_validate"]) % 2 == 1
+                    if out.cls is exc("RTCMParseError"):
+                        why = z3.And(vbit, z3.Not(crc_zero(s, rawv)))
+                    else:
+                        why = z3.Not(z3.And(has_header(s, pl), parses_ok(s, pl, fld["_labelmsm"])))
+                    eng.oblige(f"{self.qualname}.exc.error_only_for_parse_s_own_reason", s, why, kind="exc", site=fi.lineno, observe=obs,
+                               note=f"raises {out.cls.__name__}")
                 else:
                     eng.oblige(f"{self.qualname}.exc.only_library_or_stream_errors", s, False, kind="exc", site=fi.lineno,
                                observe=obs, note=f"raises {out.cls.__name__}")
